@@ -42,6 +42,8 @@
 EXTENDS Naturals, Sequences, FiniteSets, TLC, Json, IOUtils
 
 CONSTANTS MaxN, Source, DocStates,
+          SplitSample,   \* "all" | "quick": Source = "split" enumerates every case / a fixed stratified third of the cases
+                         \* with at least two second-pass bases
           LateBacks,     \* "upto1" | "two": how many TYPE_CHECKING imports Source = "late" places (none or one / exactly two)
           LateOrders,    \* "all" | "two": module orders enumerated by Source = "late" (every order / as written and reversed)
           EarlyOrder     \* "allbases" | "c3": what Class.mro() answers BEFORE post-processing (see EarlyMro)
@@ -215,6 +217,10 @@ RECURSIVE ProcAll(_, _, _)
 ProcAll(order, st, bk) == IF Len(order) = 0 THEN st ELSE ProcAll(Tail(order), Proc(Head(order), st, bk), bk)
 CreatedSeq(order, bk) == ProcAll(order, [started |-> {}, created |-> <<>>], bk).created
 BornOf(order, bk) == [c \in 1..Len(order) |-> PosIn(CreatedSeq(order, bk), c)]
+\* a fixed hash of the hierarchy, only used to pick the stratified sample of Source = "split" in the quick tier
+RECURSIVE WSum(_, _), HSum(_)
+WSum(sq, j) == IF j > Len(sq) THEN 0 ELSE j * sq[j] + WSum(sq, j + 1)
+HSum(i) == IF i = 0 THEN 0 ELSE i * WSum(bases[i], 1) + HSum(i - 1)
 NoLay == [order |-> <<>>, back |-> <<>>, impl |-> {}, split |-> 0]
 BackPairs(m) == {<<c, x>> : c \in 1..m, x \in 1..m} \ {<<c, c>> : c \in 1..m}
 BackChoices(m) == IF LateBacks = "two"
@@ -267,6 +273,9 @@ Built == /\ phase = "build" /\ n = MaxN
               \* beyond sp, which are resolved only in the second pass, while the classes up to sp are finalised already.
               \* Legal Python when B is imported first.  (sp = n-1 is the plain order: Source "enum".)
               THEN /\ \E sp \in 0..(n - 2) : /\ \E b \in Range(bases[n]) : b > sp
+                                              /\ (SplitSample = "quick" =>
+                                                     /\ Cardinality({bb \in Range(bases[n]) : bb > sp}) >= 2
+                                                     /\ (HSum(n) + sp) % 3 = 0)
                                               /\ lay' = [NoLay EXCEPT !.split = sp]
                    /\ born' = [c \in 1..n |-> IF c <= lay'.split THEN c ELSE IF c = n THEN lay'.split + 1 ELSE c + 1]
               ELSE UNCHANGED <<born, lay>>
